@@ -2,7 +2,8 @@
 from ..facts import callee_q
 from ..callgraph import CallGraph
 
-FS_PREFIX = ('std::fs::', 'tokio::fs::', 'tempfile::', 'std::os::unix::fs::', 'std::os::linux::fs::', 'std::process::')
+FS_PREFIX = ('std::fs::', 'tokio::fs::', 'tempfile::', 'std::os::unix::fs::', 'std::os::linux::fs::', 'std::process::',
+             'fern::log_file', 'fern::log_reopen', 'fern::builders::DateBased')
 # file-system APIs that only inspect
 FS_READONLY = {
     'tokio::fs::file::File::open', 'std::fs::File::open', 'tokio::fs::file::File::metadata', 'std::fs::File::metadata',
@@ -24,9 +25,11 @@ def short(b):
     return b.q
 
 
-def fs_effects(facts, cg, entry):
-    """all file-system API call sites reachable from `entry` (crate-local call graph)"""
+def fs_effects(facts, cg, entry, minus=()):
+    """all file-system API call sites reachable from `entry` (crate-local call graph), not counting what is reachable from `minus`"""
     reach = cg.reachable([entry])
+    if minus:
+        reach = reach - cg.reachable(list(minus)) | {entry}
     sites = []
     for bid in sorted(reach):
         b = facts.bodies[bid]
